@@ -638,6 +638,8 @@ class Node:
 
         if before is True:
             before = 0  # prepend
+        elif before is False:
+            before = None  # append
 
         children = self._children
         if children is None:
@@ -760,6 +762,8 @@ class Node:
 
         if before is True:
             before = 0  # prepend
+        elif before is False:
+            before = None  # append
 
         target_siblings = new_parent._children
         if target_siblings is None:
